@@ -542,7 +542,7 @@ func (f *FnEnc) mergeStates(b *ssa.BasicBlock, preds []*ssa.BasicBlock) *State {
 	for c := range f.exit[preds[0]].cells {
 		cellSet[c] = true
 	}
-	for c := range cellSet {
+	for _, c := range sortedCells(cellSet) {
 		first, ok0 := f.exit[preds[0]].cells[c]
 		same := ok0
 		all := true
@@ -640,7 +640,7 @@ func (f *FnEnc) loopHead(li *loopInfo) {
 			}
 		}
 	}
-	for c := range cells {
+	for _, c := range sortedCells(cells) {
 		if v, ok := pre.cells[c]; ok {
 			nv := f.fresh(f.cellSym(c)+"@L", v.S)
 			st.cells[c] = Val{nv, v.S}
@@ -819,4 +819,20 @@ func (f *FnEnc) modSetQuiet(blocks map[*ssa.BasicBlock]bool) (map[*ssa.Alloc]boo
 	cells, comps := f.modSet(blocks)
 	// an unknown callee makes everything relevant; that is fine
 	return cells, comps
+}
+
+// sortedCells lists the cells of a set in a fixed order (map iteration order would make the
+// numbering of generated symbols, and so the query text, differ from run to run).
+func sortedCells(m map[*ssa.Alloc]bool) []*ssa.Alloc {
+	out := make([]*ssa.Alloc, 0, len(m))
+	for c := range m {
+		out = append(out, c)
+	}
+	sort.Slice(out, func(i, j int) bool {
+		if out[i].Pos() != out[j].Pos() {
+			return out[i].Pos() < out[j].Pos()
+		}
+		return out[i].Name() < out[j].Name()
+	})
+	return out
 }
